@@ -91,6 +91,12 @@ fn mk_key(i: usize, k3name: &str) -> Key {
         }
         // equal to k1 again, derived from an already hashed base key
         4 => Key::from_parts("m", vec![Label::new("a", "1")]).with_extra_labels(vec![Label::new("b", "2")]),
+        // three labels, the first one in place and the other two in either order: equal keys, one storage
+        9 => Key::from_parts("t", vec![Label::new("a", "1"), Label::new("b", "2"), Label::new("c", "3")]),
+        10 => Key::from_parts("t", vec![Label::new("a", "1"), Label::new("c", "3"), Label::new("b", "2")]),
+        // five labels, the last two swapped
+        11 => Key::from_parts("t", vec![Label::new("a", "1"), Label::new("b", "2"), Label::new("c", "3"), Label::new("d", "4"), Label::new("e", "5")]),
+        12 => Key::from_parts("t", vec![Label::new("a", "1"), Label::new("b", "2"), Label::new("c", "3"), Label::new("e", "5"), Label::new("d", "4")]),
         _ => Key::from_name(k3name.to_string()),
     }
 }
@@ -127,10 +133,11 @@ fn alphabet() -> Vec<Op> {
     a
 }
 
-/// second, small alphabet: only the pair of equal keys whose two labels share a name
+/// second, small alphabet: the pair of equal keys whose two labels share a name, and pairs of equal keys with 3 and 5
+/// labels that differ in the order of the labels after the first
 fn alphabet_samename() -> Vec<Op> {
     use Kind::*;
-    vec![Op::Goc(G, 5), Op::Goc(G, 6), Op::Goc(C, 6), Op::Get(G, 5), Op::Get(G, 6), Op::Del(G, 5), Op::Del(G, 6), Op::Retain(G, Pred::DropAll), Op::Visit(G), Op::Handles(G), Op::Clear]
+    vec![Op::Goc(G, 5), Op::Goc(G, 6), Op::Goc(C, 6), Op::Get(G, 5), Op::Get(G, 6), Op::Del(G, 5), Op::Del(G, 6), Op::Retain(G, Pred::DropAll), Op::Visit(G), Op::Handles(G), Op::Clear, Op::Goc(G, 9), Op::Goc(G, 10), Op::Get(G, 10), Op::Del(G, 9), Op::Goc(C, 11), Op::Goc(C, 12), Op::Get(C, 11)]
 }
 
 type Model = BTreeMap<(Kind, String), usize>;
